@@ -23,7 +23,28 @@ def _table_cnt(pick):
              _CONC, [("concurrency", "Z")], "c18", _P, pick=pick)
 
 
+# the "is this candidate better than the best one kept by this worker so far" test of every weak-learner fit cache, and the
+# comparison of min_reduce: the model's selection rule (C18_Defs.cache_update / cache_less) must BE these tests -- the selection
+# is schedule independent because it is a minimum w.r.t. ONE strict order used both inside a worker and across workers.
+# std::isfinite(score) is the domain of the model (finite scores) and becomes `true`.
+_BET = [(r"std::isfinite\(\w+\)", "true"), (r"cache\.m_score", "best"), (r"\bm_score\b", "best"), (r"\bscore_(?:neg|pos)\b", "score")]
+_BARGS = [("score", "Z"), ("best", "Z")]
+
+
+def _better(name, file, var="score", pick=0):
+    return K(name, file, r"if \((std::isfinite\(%s\) && [^{;]*?)\)\s*\{" % var, _BET, _BARGS, "c18", _P, pick=pick)
+
+
 KERNELS = [
+    _better("src_c18_better_affine", "src/wlearner/affine.cpp"),
+    _better("src_c18_better_stump", "src/wlearner/stump.cpp"),
+    _better("src_c18_better_hinge_neg", "src/wlearner/hinge.cpp", "score_neg"),
+    _better("src_c18_better_hinge_pos", "src/wlearner/hinge.cpp", "score_pos"),
+    _better("src_c18_better_table_0", "src/wlearner/table.cpp", pick=0),
+    _better("src_c18_better_table_1", "src/wlearner/table.cpp", pick=1),
+    _better("src_c18_better_table_2", "src/wlearner/table.cpp", pick=2),
+    K("src_c18_reduce_less", "include/nano/core/reduce.h", r"min_reduce\(.*?const auto op = \[\]\(.*?return\s+(.*?);",
+      [(r"one\.m_score", "one"), (r"other\.m_score", "other")], [("one", "Z"), ("other", "Z")], "c18", _P),
     # ---- ml::tune: task index -> (trial, fold), slot written / read ------------------------------------------
     K("src_c18_fold", _TU, r"const auto fold\s*=\s*(.*?);", [], [("index", "Z"), ("folds", "Z")], "c18", _P),
     K("src_c18_trial", _TU, r"const auto trial\s*=\s*(.*?);", [], [("index", "Z"), ("folds", "Z")], "c18", _P),
